@@ -23,14 +23,21 @@ var abortExceptions = map[string]string{
 	"dxil/internal/emit.Emitter.emitCBVMultiRegLoad:intdiv":              "divisor is a ScalarType.Width in {1,2,4,8} for every module the lowerer returns (hand-built IR only)",
 }
 
+var argIndexExceptions = map[string]string{
+	"wgsl/internal/parser.DependencyOrder:decls[i]": "i is a node of the dependency graph: the closure is only called with the index of `for i := range decls` and with values of nameToIdx, which are such indices",
+}
+
 func init() { register("C10", propC10) }
 
 func propC10(c *Ctx, r *Report) {
 	r.Clauses = append(r.Clauses,
 		"abort inventory (E9): in every library function, (i) bounds guards are not off by one: an index s[i] protected by a comparison of i with len(s) is not protected by `i > len(s)` / `i <= len(s)`, and a constant index s[c] is not reached under guards that only establish len(s) >= m with m <= c; (ii) explicit panic / log.Fatal / os.Exit calls, (iii) single-value type assertions not protected by a comma-ok or type switch on the same expression in the function, (iv) integer divisions whose divisor is never compared with zero in the function - each such site is either shown unreachable by a written invariant or reported")
 	r.NotDecided = append(r.NotDecided,
-		"index-out-of-range and nil dereference in general, stack depth of recursive descent, termination, time and memory bounds (allocation sizes driven by array lengths in the source)")
+		"index-out-of-range on slices other than parser-node lists and with computed indices, nil dereference in general, stack depth of recursive descent, termination, time and memory bounds (allocation sizes driven by array lengths in the source)")
 	c.runPanicfree(r, nil, nil, abortExceptions)
+	r.Clauses = append(r.Clauses, "source-controlled lengths (E9, zone-style dataflow over go/cfg with per-parameter call-site facts): every index expression with a constant or local-variable index on a slice of parser nodes (call arguments, template parameters, attribute arguments, declarations - their length is chosen by the source text) is proven below the length on every path: from len() comparisons, range loops, constant assignments/increments, slicing and append, and the minimum length every caller of an unexported function establishes for the slice it passes")
+	c.runArgIndex(r, "abort.argindex", inPkgs("wgsl", "ir", "naga"), argIndexExceptions)
+	r.floor("abort.argindex", 120)
 	r.Clauses = append(r.Clauses, "parser loops (E9): every loop of the lexer/parser that keeps consuming tokens until some token kind is seen (or has no condition) also tests for the end of input, or repeats only after a specific token was matched - otherwise a truncated source makes the parser spin forever")
 	c.runParserLoops(r, "abort.parser-loop")
 	r.floor("parser.open-loops", 10)
